@@ -48,7 +48,8 @@ XCnt == <<"X", <<"B", "<", Cnt, LI>>>>
 D2Quick == { <<"B", "+", AplusB, Rb>>, <<"B", "<", AtimesB, LI>>, <<"U", "-", AtimesB>>, <<"F", "int", <<AplusB>>>>,
              <<"B", "+", <<"B", "*", Cnt, Rb>>, LI>>, <<"B", "AND", <<"U", "!", Ra>>, Rb>>, <<"B", "AND", <<"U", "!", Ra>>, LB>>,
              <<"B", "AND", XCnt, Ra>>, <<"B", "==", XCnt, LB>>, <<"X", <<"B", "+", Cnt, Ra>>>>,
-             <<"F", "if", <<Ra, Cnt, LI>>>> }
+             <<"F", "if", <<Ra, Cnt, LI>>>>,
+             <<"B", "AND", Ra, <<"B", "<", Cnt, LI>>>>, <<"B", "OR", Ra, <<"B", "<", Cnt, LI>>>> }     \* short circuit over a stateful operand
 MCASTsQuick == D1Quick \cup D2Quick
 (* thorough: every depth <= 1 AST over the reduced operator set, and every depth-2 AST built from an inner     *)
 (* binary/unary node over the references and an outer operator, unary, call, if() or nested lambda              *)
